@@ -224,7 +224,8 @@ def run(ctx):
         def extras():
             while rng.random() < 0.2:
                 hist.append((rng.choice(['comment', 'blank', 'spaces']),))
-        for s in 'VWCP':
+        order_ = 'V' + ''.join(rng.sample('WCP', 3)) if rng.random() < 0.4 else 'VWCP'      # LAS: any order after ~V, ~A last
+        for s in order_:
             if s == 'P' and nhdr['P'] == 0:
                 continue
             extras()
